@@ -9,15 +9,17 @@
   redirect starts at its file descriptor or operator and its operator and target occur there.
   Executable specification: `Spec.localTextViol` / `Spec.textOK` (`Spec/Tree.lean`).
 
-  ## The hypothesis (`C04/TokText.lean`; validation: `C04/Validate.lean`)
+  ## The statement on the token source (`C04/TokText.lean`) — PROVED: `C04/TokTextProof.lean`
 
   `TokText.next`: from every `Good` state of a parser object over the line `g.line` (C11's
   invariant: the tape holds that line, cursor inside) whose `_eol_ungetc_lookahead` slot is
   empty, every token `token()` delivers satisfies the decidable relation `TT g.line t`, and the
-  slot is empty again.  `TT`: the text of the line under the token's span, line continuations
-  removed, is the token's spelling (`stripContinuations sl = stripContinuations v ++ r`, and
-  `sl = v ++ r` when `sl` holds no continuation), where the residue `r` is empty or one of the
-  recorded defect shapes, kept as explicit alternatives:
+  slot is empty again.  `TT`: the token's spelling followed by a residue `r` is the text of the
+  line under the token's span with some backslash-newline pairs deleted (`Del sl (v ++ r)`,
+  `C04/TTDel.lean`: the ghost relation of `_getc`; it gives `stripContinuations sl = v ++ r` when
+  the VALUE holds no adjacent backslash-newline, and `sl = v ++ r` when `sl` holds no
+  continuation), where the residue `r` is empty or one of the recorded defect shapes, kept as
+  explicit alternatives:
     D31      `r = "\"`, the rest of the line is the final newline  (witness `a &\` → `&` spans `&\`)
     D32      `r = "<\"` / `">\"`, next character a newline          (witness `a<\⏎b` → WORD `a` spans `a<\`)
     D31+D32  `r = "<"` / `">"`, the rest of the line is `\⏎`        (witness `a<\` → WORD `a` spans `a<`)
@@ -29,13 +31,15 @@
   (The slot matters: with a character in it that did not come from the tape the relation is
   plainly false, so it is part of the state invariant; `C04/Eol.lean` proves that no semantic
   action touches it — a walk through all action functions, `keepsEol_action`.)
-  NOT proved from the tokenizer (a walk through `_readtokenword` / `_parse_matched_pair` counting
-  consumed characters: a different, large task).  Validated by evaluation of the model: a parser
-  whose token source checks `ttOK line t` on every delivered token and the empty slot before and
-  after every `token()` and after every action (nested parsers included) was run on 4903 inputs
-  and their suffixes, in strict and in non-strict/proceed mode: 0 failures (`#eval report corpus`,
-  `#eval report gridInputs` in `Validate.lean`, run at every build).  C11's hypothesis `TokLen`
-  is not needed: `TT.tl`.
+  `theorem tokText : TokText` (`C04/TokTextProof.lean`, files `C04/TT*.lean`) proves it for the
+  real tokenizer: a ghost-text argument through `_readtoken`, `_readtokenword`,
+  `_parse_matched_pair`, `_parse_comsub`, `gatherheredocuments`.  `Props/C04Total.lean` has the
+  theorems below without the hypothesis.  The FIRST version of `TT` (with
+  `stripContinuations sl = stripContinuations v ++ r`; validated by evaluation only) was FALSE of
+  the model: witnesses `"\\\⏎⏎"` (a WORD whose value holds a backslash-newline that was not
+  adjacent in the text) and `<()<\`, see `C04/TokText.lean`; the evaluation (`Validate.lean`,
+  extended by a grid with quotes and parentheses) stays as a cross-check of the statement.
+  C11's hypothesis `TokLen` is not needed: `TT.tl` (and `Props/C11Total.lean`).
 
   ## What is proved (all inputs, all options; `C04/*.lean`)
 
@@ -81,7 +85,9 @@
     the output is `out`'s value; unless it is a here-document redirect the span is
     `(first.lexpos, out.endlexpos)` moved.
   * **`C04_word_span`**: a word / assignment node sits at the span of one delivered token, whose
-    text on the line is its value up to continuations and residues; its parts are `C07.PartsOK`
+    text on the line is its value up to deleted continuations and residues (`TokDelAt`; in the
+    `stripContinuations` form `TokTextAt` when the value holds no adjacent backslash-newline —
+    in general that form is false: witness `"\\\⏎⏎"`); its parts are `C07.PartsOK`
     with respect to the value of THAT token; `value_slice`: when the value is a prefix of the
     word's text and no enclosing word's value differs from its text, slices of the input inside
     the word are slices of the value — so C07's span formulas (`dollar_span_tight`) speak about
@@ -89,7 +95,7 @@
 
   ## Not proved (what `Unlinked` leaves open)
 
-  * `TokText` itself.
+  * (`TokText` itself is proved: `C04/TokTextProof.lean`.)
   * The word clauses of `localTextViol` (`word-not-whole`, `word-cut-short`, `word-starts-late`):
     statements about the characters around a WORD token (tokenizer).
   * `redirect-text` needs that the NUMBER token is immediately followed by the operator token
@@ -530,7 +536,10 @@ theorem C04_redirect (hT : TokText) (s : Str) (o : Opts) (parts : List Node)
       exfalso
       have : ty = [] := by rw [h4]; simp [Token.valueStr, hv]
       rw [this] at hty; revert hty; decide
-  refine ⟨J, fr, first, op, otok, hJ, hs, h1, h2, h3, hopv, (h2.text hopv).2, h5, ?_, h6, h7⟩
+  have htyc : hasContinuation ty = false := by
+    have : ∀ x ∈ redirOps, hasContinuation x = false := by decide
+    exact this ty (by simpa using hty)
+  refine ⟨J, fr, first, op, otok, hJ, hs, h1, h2, h3, hopv, (h2.text hopv htyc).2, h5, ?_, h6, h7⟩
   intro k hk
   rcases h5 with ⟨_, hnone⟩ | hin
   · rw [hnone] at hk; cases hk
@@ -556,14 +565,17 @@ theorem C04_word_span (hT : TokText) (s : Str) (o : Opts) (parts : List Node)
         p = (tok.lexpos + (fr.off + J), tok.endlexpos + (fr.off + J)) ∧
         (∃ d, C07.PartsOK (C07.RNested d) tok.valueStr (C07.qOf tok) p.1 p.2 ps) ∧
         (∀ v, tok.value = .str v →
-          TokTextAt fr.line tok.endlexpos (Str.slice fr.line tok.lexpos tok.endlexpos) v) ∧
+          TokDelAt fr.line tok.endlexpos (Str.slice fr.line tok.lexpos tok.endlexpos) v ∧
+          (hasContinuation v = false →
+            TokTextAt fr.line tok.endlexpos (Str.slice fr.line tok.lexpos tok.endlexpos) v)) ∧
         (fr.cont = false → p.2 ≤ s.length →
           Str.slice s p.1 p.2 = Str.slice fr.line tok.lexpos tok.endlexpos) := by
   intro n hn m hm p w ps hshape
   obtain ⟨J, hJ, hall, _⟩ := C04_prov hT s o parts h n hn
   have htx : isTextual m = true := by rcases hshape with rfl | rfl <;> rfl
   obtain ⟨fr, tok, hs, hTk, hp, hparts, hb⟩ := word_prov hshape (hall m hm htx)
-  refine ⟨J, fr, tok, hJ, hs, hTk, hp, hparts, fun v hv => (hTk.text hv).2, ?_⟩
+  refine ⟨J, fr, tok, hJ, hs, hTk, hp, hparts,
+    fun v hv => ⟨(hTk.del hv).2, fun hc => (hTk.text hv hc).2⟩, ?_⟩
   intro hc hin
   have h2 : p.2 ≤ fr.lim + J := by
     cases hnest : fr.nested with
